@@ -275,6 +275,8 @@ async fn run_async(case: &Case, fx: &Fixture) -> CaseResult {
     let rows1 = match df.collect().await {
         Ok(bs) => batches_to_rows(&bs),
         Err(e) if matches!(e.find_root(), DataFusionError::NotImplemented(_)) => return CaseResult::discard(format!("running the unparsed SQL: {}", err_key(&e))).labels(labels),
+        // engine defect reproducible without the unparser (logical `IS [NOT] TRUE` non-nullable vs physical nullable): out of scope here
+        Err(e) if e.to_string().contains("Physical input schema should be the same as the one converted from logical input schema") => return CaseResult::discard("re-planned SQL hits the engine's physical/logical schema nullability mismatch (not an unparser matter)").labels(labels),
         Err(e) => return CaseResult::violation(format!("the unparsed SQL fails to run although the plan runs: {}{}", err_text(&e), ctxt())).labels(labels),
     };
     if let Some(m) = types_logically_equal(&original.schema, &schema1) {
